@@ -329,7 +329,6 @@ func init() {
 		"_.□s.Type.(*Object).Set(_, _)", "_.□s.Map(_.Name, _)", "_.□s.Validation == nil", "_.□s.Validation = &ValidationExpr{}", "_.□s.Validation.AddRequired(_)")
 	add("http/codegen.ServicesData.analyze", "header", "security schemes located in headers; there is no cookie location for schemes", "□schemes: _")
 	add("http/codegen.buildErrorsData", "header", "the goa-error response header has no cookie counterpart", "Error□: _.Name")
-	add("http/codegen/openapi/v3.responseFromExpr", "header", "OpenAPI response objects have headers only; cookies are documented as a Set-Cookie header", "□s: _")
 	add("expr.HTTPServiceExpr.Validate", "header", "service-level cookies are validated with the endpoints that inherit them", "_.□s != nil", "_.Merge(_.□s.Validate(\"□s\", _))")
 }
 
@@ -340,6 +339,13 @@ var reviewedOneSided = map[string]string{
 	"expr.findKey|header":                                 "security keys are looked up in params, headers and body only",
 	"http/codegen/openapi/v2.paramsFromHeaders|header":    "OpenAPI v2 has no cookie parameter location (known finding R07.3 covers the omission)",
 	"http/codegen/openapi/v2.responseSpecFromExpr|header": "OpenAPI v2 responses document headers only",
+}
+
+// reviewedAsymmetricFuncs lists functions in which the two words of a pair are handled differently by design,
+// whatever the code looks like (function -> reason): no unit of theirs (or of a helper extracted from them) is
+// compared.
+var reviewedAsymmetricFuncs = map[string]string{
+	"http/codegen/openapi/v3.responseFromExpr": "OpenAPI response objects have headers only; cookies are documented as one Set-Cookie header built from the cookie list",
 }
 
 func swapWord(name, a, b string) string {
@@ -391,6 +397,16 @@ func anchorParity(c *an.Ctx, rule string, funcs []*an.Func) {
 				asym = an.Parity(f, pair[0], pair[1])
 			}
 			checked++
+			byDesign := false
+			for _, root := range c.RootNames(f) {
+				if _, ok := reviewedAsymmetricFuncs[root]; ok {
+					byDesign = true
+				}
+			}
+			if byDesign {
+				units += len(asym)
+				continue
+			}
 			if len(asym) > 0 {
 				w := asym[0].Word
 				same := true
@@ -399,15 +415,27 @@ func anchorParity(c *an.Ctx, rule string, funcs []*an.Func) {
 						same = false
 					}
 				}
-				if _, ok := reviewedOneSided[f.Name+"|"+w]; ok && same && an.ParityUnitCount(f, otherWord(pair, w), pair[0], pair[1]) == 0 {
+				oneSided := false
+				for _, root := range c.RootNames(f) {
+					if _, ok := reviewedOneSided[root+"|"+w]; ok {
+						oneSided = true
+					}
+				}
+				if oneSided && same && an.ParityUnitCount(f, otherWord(pair, w), pair[0], pair[1]) == 0 {
 					units += len(asym)
 					continue
 				}
 			}
 			for _, a := range asym {
 				units++
-				key := f.Name + "|" + a.Word + "|" + a.Norm
-				if _, ok := reviewedParity[key]; ok || reported[key] {
+				key := c.RefName(f) + "|" + a.Word + "|" + a.Norm
+				reviewed := false
+				for _, root := range c.RootNames(f) { // code moved into a helper is reviewed with the function it came from
+					if _, ok := reviewedParity[root+"|"+a.Word+"|"+a.Norm]; ok {
+						reviewed = true
+					}
+				}
+				if reviewed || reported[key] {
 					continue
 				}
 				reported[key] = true
@@ -424,4 +452,25 @@ func otherWord(pair [2]string, w string) string {
 		return pair[1]
 	}
 	return pair[0]
+}
+
+// reviewedLints lists lint hits of the reference tree that were read and found intended (kind|function -> reason).
+// The function is named in the reference vocabulary; a helper extracted from it inherits the review.
+var reviewedLints = map[string]string{
+	"memo|expr.projectRecursive": "a nested result type is memoised under the view that is used to project it (the field's own view), not under the enclosing view the lookup uses; R08.5 decides that key",
+}
+
+func init() {
+	an.ReviewedLint = func(kind string, f *an.Func) bool {
+		if Current == nil {
+			_, ok := reviewedLints[kind+"|"+f.Name]
+			return ok
+		}
+		for _, root := range Current.RootNames(f) {
+			if _, ok := reviewedLints[kind+"|"+root]; ok {
+				return true
+			}
+		}
+		return false
+	}
 }
